@@ -802,6 +802,11 @@ func runUDPPlan(t *testing.T, p *udpPlan) (viol string, labels map[string]bool, 
 	}
 	r := sr.(*dns.Resolver)
 	var prev *entry
+	// alts: the stored answers of the OTHER admissible readings of the first lookup that give the
+	// same addresses as prev (e.g. "the UDP phase ended at the garbage datagram" and "... at the
+	// truncated datagram after it" differ only in which discarded datagrams' TTLs were looked at).
+	// What the second lookup does has to be consistent with at least one of them.
+	var alts []*entry
 	prevFailed := false
 	var keyb strings.Builder
 	for k := range p.L {
@@ -897,7 +902,11 @@ func runUDPPlan(t *testing.T, p *udpPlan) (viol string, labels map[string]bool, 
 				if prev == nil {
 					return "SIG=C17/no-upstream-query-without-cached-entry " + ctxs(), labels, ""
 				}
-				if !prev.observeHit(t0) {
+				hitOK := prev.observeHit(t0)
+				for _, e := range alts {
+					hitOK = e.observeHit(t0) || hitOK
+				}
+				if !hitOK {
 					return "SIG=C17/served-after-expiry-without-refresh " + ctxs(), labels, ""
 				}
 				if !out.matches(prev) {
@@ -907,7 +916,11 @@ func runUDPPlan(t *testing.T, p *udpPlan) (viol string, labels map[string]bool, 
 				keyb.WriteString("=> hit")
 				continue
 			}
-			if prev != nil && !prev.observeMiss(t0) {
+			missOK := prev == nil || prev.observeMiss(t0)
+			for _, e := range alts {
+				missOK = e.observeMiss(t0) || missOK
+			}
+			if !missOK {
 				return "SIG=C17/requery-before-expiry " + ctxs() + " entry{" + prev.String() + "}", labels, ""
 			}
 			if prevFailed {
@@ -959,6 +972,14 @@ func runUDPPlan(t *testing.T, p *udpPlan) (viol string, labels map[string]bool, 
 		matched := false
 		var why []string
 		for _, x := range variants {
+			if matched {
+				// the first matching reading decides the labels; further readings with the same
+				// addresses only widen what the next lookup may do
+				if x.why == "" && !(x.dials == 0 && len(obs) != 0) && x.entry != nil && !prevFailed && prev != nil && k == 0 && out.matches(x.entry) {
+					alts = append(alts, x.entry)
+				}
+				continue
+			}
 			switch {
 			case x.why != "":
 				why = append(why, x.desc+": "+x.why)
@@ -1010,9 +1031,6 @@ func runUDPPlan(t *testing.T, p *udpPlan) (viol string, labels map[string]bool, 
 					want = x.entry.String()
 				}
 				why = append(why, x.desc+": want{"+want+"}")
-			}
-			if matched {
-				break
 			}
 		}
 		if !matched {
